@@ -198,11 +198,8 @@ def _convert_direct_call(node: ast.Call) -> libsbml.ASTNode:
             sbml_node.addChild(_convert_node(arg))
         return sbml_node
 
-    # General function call
-    sbml_node = libsbml.ASTNode(libsbml.AST_FUNCTION)
-    for arg in node.args:
-        sbml_node.addChild(_convert_node(arg))
-    return sbml_node
+    msg = f"Function {func} cannot be exported to SBML"
+    raise NotImplementedError(msg)
 
 
 def _convert_library_call(node: ast.Call) -> libsbml.ASTNode:
@@ -226,11 +223,8 @@ def _convert_library_call(node: ast.Call) -> libsbml.ASTNode:
                 sbml_node.addChild(_convert_node(arg))
             return sbml_node
 
-    # General library call
-    sbml_node = libsbml.ASTNode(libsbml.AST_FUNCTION)
-    for arg in node.args:
-        sbml_node.addChild(_convert_node(arg))
-    return sbml_node
+    msg = f"Function {parent}.{attr} cannot be exported to SBML"
+    raise NotImplementedError(msg)
 
 
 def _convert_call(node: ast.Call) -> libsbml.ASTNode:
